@@ -143,16 +143,15 @@ class Run:
             if key not in fired:
                 out.append(f"NOTE: listed known finding no longer reproduces: {key}")
         vcount = 0
-        if violations and not self.errors:
+        if violations:
             replay_dir.mkdir(parents=True, exist_ok=True)
         for i, f in enumerate(violations):
             path = replay_dir / f"{self.prop}-{i}.json"
-            if not self.errors:
-                path.write_text(json.dumps(f, indent=1, default=str))
+            path.write_text(json.dumps(f, indent=1, default=str))
             out.append(f"DIAGNOSTIC: {f['rule']} {f['construct']} [{f['sub']}] at {f['loc']}: {f['message']}")
-            if not self.errors:
-                out.append(f"VIOLATION property={self.prop} replay={path}")
+            out.append(f"VIOLATION property={self.prop} replay={path}")
             vcount += 1
+        # a definite violation outranks an inconclusive part of the analysis: exit 1 with the ANALYSIS-ERROR lines as notes
         for e in self.errors:
             out.append(f'ANALYSIS-ERROR property={self.prop} rule={e}')
         n_obl = len(self.obligations)
@@ -199,13 +198,13 @@ class Run:
                 print(f'  {r}: {self.rule_counts.get(r, 0)} instance(s) analysed -- {d}')
             for line in out:
                 print(line)
-            status = 'ANALYSIS-ERROR' if self.errors else ('VIOLATION' if vcount else 'OK')
+            status = 'VIOLATION' if vcount else ('ANALYSIS-ERROR' if self.errors else 'OK')
             print(f'{self.prop} [{self.tier}] {status}: {n_ok}/{n_obl} obligations hold, {len(knowns)} known finding(s), '
                   f'{vcount} violation(s), {wall:.2f}s')
         self.out_lines = out
-        if self.errors:
-            return 2
-        return 1 if vcount else 0
+        if vcount:
+            return 1
+        return 2 if self.errors else 0
 
 
 _known_cache = None
